@@ -28,7 +28,7 @@ ASSUMPTIONS = ['strings where a `{` occurs inside an open brace pair ({{A}}, {a{
 BUDGET = {'quick': 40, 'thorough': 900}
 
 NAMES = ['A', 'B', 'DATA_DIR', 'X1', 'name', 'Z']
-UNDEF = ['U', 'MISSING', 'a b', '', 'A ', '0']
+UNDEF = ['U', 'MISSING', 'a b', '', 'A ', '0', 'items', 'keys', 'values', 'get', 'copy', 'pop']      # (also names of methods of mappings: not keys)
 ODD_NAMES = ['data-dir', 'run.id', 'my var', 'é', '1', 'a:b', 'x/y', 'A.B']
 MAPPING_STYLES = ('dict', 'ordered_dict', 'defaultdict', 'fallback_dict', 'falsy_mapping')
 AMBIG = re.compile(r'\{[^}]*\{')
